@@ -64,7 +64,7 @@ package dmap
 //@ pure func deadAt(ttl int64, t int) bool = ttl != 0 && t/1000000 >= ttl
 
 //@ func isKeyExpired(ttl int64) bool
-//@   props C09
+//@   props C09 C08
 //@   flag clock
 //@   flag termination
 //@   ensures #iff [C09]: result == deadAt(ttl, now())
@@ -76,7 +76,7 @@ package dmap
 // Durations are assumed to be non-negative and below 2^62 ns (about 146 years): the sum with the clock is
 // then exact.
 //@ func prepareTTL(e *env) int64
-//@   props C09
+//@   props C09 C04 C08
 //@   flag clock
 //@   flag termination
 //@   requires #env: e != nil && e.putConfig != nil
@@ -96,7 +96,7 @@ package dmap
 // NX and as missing for XX. The clock may advance during the call: "live at the end" implies live at the
 // check, "dead at the start" implies dead at the check.
 //@ func (dm *DMap) checkPutConditions(e *env) error
-//@   props C09 C15
+//@   props C09 C15 C08
 //@   flag clock
 //@   flag termination
 //@   requires #env: e != nil && e.putConfig != nil && e.fragment != nil && e.fragment.storage != nil
@@ -119,7 +119,7 @@ package dmap
 // Writing an entry into the fragment named by e (fragment lock held). With OnlyUpdateTTL only the expiry
 // (and timestamp) of an existing key changes; otherwise the entry replaces whatever was stored.
 //@ func (dm *DMap) putEntryOnFragment(e *env, nt storage.Entry) error
-//@   props C09 C05
+//@   props C09 C05 C04 C08
 //@   flag termination
 //@   requires #env: e != nil && e.putConfig != nil && e.fragment != nil && e.fragment.storage != nil && nt != nil
 //@   ensures #expire_keeps_value [C09]: e.putConfig.OnlyUpdateTTL && result == nil ==> old(e.fragment.storage.has)[e.hkey] &&
@@ -142,7 +142,7 @@ package dmap
 // The entry built for a write carries the key, the value bytes, the write timestamp and the expiry that
 // the options yield at some clock reading during the call.
 //@ func (dm *DMap) prepareEntry(e *env) storage.Entry
-//@   props C09
+//@   props C09 C04 C08
 //@   flag clock
 //@   flag termination
 //@   requires #env: e != nil && e.putConfig != nil && e.fragment != nil && e.fragment.storage != nil
@@ -225,7 +225,7 @@ package dmap
 // A write on the partition owner (C09, single-copy path stated exactly; with replicas the same entry is
 // handed to the replication routines). S below is the storage of the fragment the write lands in.
 //@ func (dm *DMap) putOnCluster(e *env) error
-//@   props C09 C10 C04
+//@   props C09 C10 C04 C08
 //@   requires #lru_samples: dm.config != nil ==> dm.config.lruSamples >= 1
 //@   flag clock
 //@   flag termination
@@ -401,7 +401,7 @@ package dmap
 // Forwarding (non-owner member -> owner): an Expire travels as DM.PEXPIRE, everything else as DM.PUT carrying
 // the condition (NX wins over XX, as in the local path's checks only one can be sent) and the first expiry form.
 //@ func (dm *DMap) writePutCommand(e *env) (*redis.StatusCmd, error)
-//@   props C15 C09
+//@   props C15 C09 C08
 //@   flag termination
 //@   requires #env: dm != nil && e != nil && e.putConfig != nil && dm.s != nil
 //@   requires #durations: 0 <= e.putConfig.PX && 0 <= e.putConfig.PXAT
@@ -428,7 +428,7 @@ package dmap
 // Decoding on the owner: every option of the parsed command reaches the PutConfig, in every combination
 // (a condition together with an expiry form in particular).
 //@ func (s *Service) putCommandHandler(conn redcon.Conn, cmd redcon.Command)
-//@   props C15 C16 C09
+//@   props C15 C16 C09 C08
 //@   flag termination
 //@   flag wired 2
 //@   requires #args: len(cmd.Args) >= 1
